@@ -777,6 +777,10 @@ def ev(n: Node, env, rows):
         new = {lab: ev(x, env, rows) for lab, x in zip(n.labels[1:], c[1:])}
         if old is None:
             return None
+        if not isinstance(old, dict):
+            # the interpreter is total: a non-struct operand (possible under the arbitrary environments) still yields a
+            # deterministic value, which is all the CSE-vs-plain comparison needs
+            return ('insert-into-non-struct', repr(old), tuple(sorted((kk, repr(vv)) for kk, vv in new.items())))
         d = dict(old)
         d.update(new)
         if isinstance(h[0], list):
@@ -784,10 +788,14 @@ def ev(n: Node, env, rows):
         return d
     if k == 'SelectFields':
         v = ev(c[0], env, rows)
-        return None if v is None else {str(f): v[str(f)] for f in h[0]}
+        if v is not None and not isinstance(v, dict):
+            return ('select-from-non-struct', repr(v))
+        return None if v is None else {str(f): v.get(str(f)) for f in h[0]}
     if k == 'GetField':
         v = ev(c[0], env, rows)
-        return None if v is None else v[str(h[0])]
+        if v is not None and not isinstance(v, dict):
+            return ('field-of-non-struct', repr(v), str(h[0]))
+        return None if v is None else v.get(str(h[0]))
     if k == 'MakeTuple':
         return tuple(ev(x, env, rows) for x in c)
     if k == 'GetTupleElement':
